@@ -10,6 +10,8 @@ import ICal.Lemmas.Fold
 import ICal.Lemmas.FoldLines
 import ICal.Lemmas.FoldBytes
 import ICal.Lemmas.BodiesFold
+import ICal.Lemmas.FoldMore
+import ICal.Model.Ser
 namespace ICal.C06
 
 /-- Master statement, generic in the limit (`5 ≤ limit`: a 4-octet character must fit): the
@@ -209,6 +211,113 @@ theorem fold_bytes_utf8 (l : Str) (h : LF ∉ l) :
     of 74 and 7 octets. -/
 example : (splitCRLF (utf8 (foldline (List.replicate 40 'é')))).map List.length = [74, 7] := by
   decide
+
+/-! ## Clause pass (round 10) -/
+
+/-- Folding is the identity on every line of at most 74 octets (the code folds before the 75th
+    octet: the first physical line has at most 74, see `fold_75_is_folded`). -/
+theorem fold_short_identity (l : Str) (h : octets l ≤ 74) : foldline l = l := by
+  unfold foldline foldlineWith
+  split
+  · next hasc =>
+    rw [octets_ascii l hasc] at h
+    by_cases hne : l = []
+    · subst hne; rw [chunks.eq_1]; simp [joinSegs]
+    · rw [chunks_short _ l hne (by simpa [Gen.foldLimit, Gen.foldSliceMinus] using h)]; rfl
+  · exact foldUni_short _ _ l 0 (by simpa [Gen.foldLimit] using Nat.lt_succ_of_le h)
+
+example : octets (List.replicate 37 'é') ≤ 74 := by decide
+
+/-- … and a line of exactly 75 octets IS folded (allowed by RFC 5545, which only bounds lines by
+    75 octets): 37 two-octet characters and one ASCII character become lines of 74 and 2 octets. -/
+theorem fold_75_is_folded :
+    octets (List.replicate 37 'é' ++ ['a']) = 75 ∧
+    (splitCRLF (utf8 (foldline (List.replicate 37 'é' ++ ['a'])))).map List.length = [74, 2] := by
+  decide
+
+/-- "Exactly one added space": the folded line is longer than the line by exactly the three
+    characters CR LF SP per fold — nothing else is added, nothing is removed, whatever character
+    (space, tab, CR) stands at a fold point. -/
+theorem fold_adds_exactly (l : Str) :
+    ∃ segs, foldline l = joinSegs [CR, LF, SP] segs ∧ segs.flatten = l ∧
+      (foldline l).length = l.length + 3 * (segs.length - 1) := by
+  obtain ⟨segs, h1, h2, _⟩ := fold_segments l
+  refine ⟨segs, h1, h2, ?_⟩
+  rw [h1, joinSegs_length, h2]; rfl
+
+/-- The restored text does not depend on the characters at the fold points: a segment that
+    starts with a space or a tab keeps it (only the ONE added space is removed). -/
+theorem unfold_keeps_own_space (a b : Str) (ha : LF ∉ a) (hb : LF ∉ b) (x : Char)
+    (hx : x = SP ∨ x = HT) :
+    unfold (joinSegs [CR, LF, SP] [a, x :: b]) = a ++ x :: b := by
+  have := unfold_any_folding [a, x :: b] (by
+    intro s hs
+    simp only [List.mem_cons, List.not_mem_nil, or_false] at hs
+    rcases hs with rfl | rfl
+    · exact ha
+    · intro hm
+      rcases List.mem_cons.mp hm with e | hm
+      · rcases hx with rfl | rfl <;> exact absurd e (by decide)
+      · exact hb hm)
+  simpa using this
+
+example : unfold (joinSegs [CR, LF, SP] [['a', SP], [SP, 'b']]) = ['a', SP, SP, 'b'] :=
+  unfold_keeps_own_space ['a', SP] ['b'] (by decide) (by decide) SP (Or.inl rfl)
+
+/-- Component level on the written octets: for every list of content lines without LF, every
+    physical line of `Contentlines.to_ical` (octets between two CR LF pairs) has at most 75
+    octets and is the UTF-8 of whole characters. -/
+theorem lines_bytes (ls : List Str) (h : ∀ l ∈ ls, LF ∉ l) :
+    ∀ p ∈ splitCRLF (utf8 (linesToIcal ls)), p.length ≤ 75 ∧ ∃ s : Str, p = utf8 s := by
+  intro p hp
+  unfold linesToIcal at hp
+  generalize hk : ls.filter (fun l => !l.isEmpty) = ks at hp
+  have hks : ∀ k ∈ ks, LF ∉ k := by
+    intro k hk'; rw [← hk] at hk'; exact h k (List.mem_filter.mp hk').1
+  cases ks with
+  | nil =>
+    have e : splitCRLF (utf8 (joinWith [CR, LF] (([] : List Str).map foldline) ++ [CR, LF])) = [[], []] := by
+      decide
+    rw [e] at hp
+    have : p = [] := by simpa using hp
+    subst this; exact ⟨by simp, [], rfl⟩
+  | cons k ks' =>
+    rw [joinWith_append_sep [CR, LF] _ (by simp)] at hp
+    rcases splitCRLF_body_mem _ p hp with rfl | ⟨f, hf, hpf⟩
+    · exact ⟨by simp, [], rfl⟩
+    · obtain ⟨l, hl, rfl⟩ := List.mem_map.mp hf
+      exact ⟨fold_bytes_width l (hks l hl) p hpf, fold_bytes_utf8 l (hks l hl) p hpf⟩
+
+/-- "The same holds for every line of every serialised component": whenever `to_ical` of ANY
+    component tree succeeds (either value of `sorted`), every physical line of the written octets
+    has at most 75 octets and is valid UTF-8 on its own. -/
+theorem component_bytes (sorted : Bool) (c : Comp) (t : Str) (h : toIcal sorted c = .ok t) :
+    ∀ p ∈ splitCRLF (utf8 t), p.length ≤ 75 ∧ ∃ s : Str, p = utf8 s := by
+  unfold toIcal at h
+  cases hc : contentLines sorted c with
+  | error e => rw [hc] at h; cases h
+  | ok ls =>
+    rw [hc] at h
+    have ht : t = linesToIcal ls := by cases h; rfl
+    subst ht
+    apply lines_bytes
+    intro l hl
+    obtain ⟨it, _, hit⟩ := mapM_ok_mem (itemLine sorted) _ ls hc l hl
+    have hm : ∀ u, mkLine u = .ok l → LF ∉ l := by
+      intro u hu
+      unfold mkLine at hu
+      split at hu
+      · cases hu
+      · next hcn =>
+        injection hu with e; subst e
+        intro hmem; apply hcn; simpa using hmem
+    unfold itemLine fromParts at hit
+    split at hit <;> exact hm _ hit
+
+example : ∃ t, toIcal false (.mk ['X'] [] []) = .ok t := by
+  have : contentLines false (.mk ['X'] [] []) = .ok [['B','E','G','I','N',':','X'], ['E','N','D',':','X']] := by
+    rfl
+  exact ⟨_, by unfold toIcal; rw [this]; rfl⟩
 
 /-! ## Regenerated function body = hand model
 
